@@ -23,7 +23,7 @@ CLAIMED = {
          'Schedules are sampled, not enumerated; clients follow the pipeline discipline (only a held seed is fed back / finished) plus deliberate unknown ids and repeated finishes.', '4/C12'),
  'C17': ('exploration', 'linearizability checking (porcupine) of concurrent histories on the real stats primitives + exact quiescent totals after bulk bursts; race detector; hook-point perturbation inside the two-word mean',
          'Histories from 8-32 goroutines on counter / rate total / mean / per-key bucket checked against sequential models, bulk bursts with exact totals, half of the children under the race detector (a race report in the stats primitives is a violation).',
-         'Unit level only so far (pipeline-level counter exactness is planned with the end-to-end runs); mid-burst reads of the mean are unconstrained.', '4/C17'),
+         'Unit level + pipeline level (counters against the hook events of full-pipeline runs); mid-burst reads of the mean are unconstrained.', '4/C17'),
 
  'C13': ('exploration', 'online reference-model monitor on the hook event stream of the real token bucket under a virtual clock; concurrent waiters; race detector',
          'Every state change of the real bucket is reported under its own mutex with the time the code used; the monitor replays the most permissive bucket the statement allows and checks window bound, token range, rate bounds, penalty rule and the direction of rate changes on each event.',
@@ -51,6 +51,10 @@ CLAIMED = {
  'C14': ('exploration', 'enumeration of all call orders (bounded length) of pause/resume/stop/feed against the real stage workers, one child process per script, plus random concurrent scripts under hook-point perturbation and the race detector; structural-quiescence (stuck) oracle with goroutine dumps',
          'The real preprocessor/postprocessor/finisher workers are the subscribers; every script ends with a verdict at quiescence: all invoked calls returned, no panic, no work taken between a worker\'s acknowledgement and its resume, no acknowledged worker left blocked by a Resume that returned.',
          'Stage level (archiver stage and watchdogs are covered by the pipeline-level stop matrix when built); call orders enumerated to the stated length, interleavings inside the stages sampled; stuck = no event and no return over three samples.', '4/C14'),
+
+ 'C01': ('exploration', 'offline exactly-once / ordering checker over the hook event log of full-pipeline runs + in-line tree assertion at the finish notification + quiescent reactor invariants; configuration matrix, seeded schedule perturbation, race-detector sample',
+         'The whole real pipeline (controler.Start, local queue, WARC writing, real HTTP against a scripted origin on loopback) processes generated sites; per run the event log (total order) must show exactly one finish notification per accepted seed, none for unknown seeds, no stage/archiver activity for a seed after its notification, no node awaiting fetch/post-processing at the notification, an empty reactor at quiescence.',
+         'Schedules sampled; quiescence = 6.5 s without hook events or open origin requests; seeds enter through hubs (input seeds) and the real LQ.', '4/C01'),
 }
 NOT_BUILT = 'check not built yet in this session (planned, see DESIGN.md section 4)'
 
